@@ -762,8 +762,9 @@ ensures
         synast::LiteralKind::FloatNumber(_) => res->Some_0.expression is Literal && res->Some_0.expression->Literal_0 is Float && res->Some_0.ty is Float,
         synast::LiteralKind::BitString(_) => res->Some_0.expression is Literal && res->Some_0.expression->Literal_0 is BitString,
         _ => true,
-    },                                                                                      //@C06,C08:literal-class'''))
-    zov.setdefault('paren_expr_to_asg_texpr', {}).update(dict(ret='res', spec='ensures res is Some, grows(*old(context), *final(context)),'))
+    },                                                                                      //@C06,C08:literal-class
+    typed_ok(res->Some_0),                                                                  //@C08:expression-typed-as-its-construct'''))
+    zov.setdefault('paren_expr_to_asg_texpr', {}).update(dict(ret='res', props=['C08', 'C06', 'C03'], spec='ensures res is Some, grows(*old(context), *final(context)), typed_ok(res->Some_0),     //@C08:expression-typed-as-its-construct\n    paren_expr.sp_expr() is Some ==> expr_kind_ok(paren_expr.sp_expr()->Some_0, res->Some_0),     //@C06:parentheses-are-transparent'))
     zov.setdefault('io_declaration_statement_to_asg_stmt', {}).update(dict(ret='r', props=['C06', 'C09', 'C03'], spec='''ensures grows(*old(context), *final(context)),
     if type_decl.sp_input_token() is Some { r is InputDeclaration } else { r is OutputDeclaration },          //@C06:statement-kind
     (final(context).scopes() == old(context).scopes()) <==> declared_symbol(r)->Some_0 is Err,                   //@C07:redeclaration-marked-in-the-graph''',
@@ -851,6 +852,10 @@ ensures
     expr_maybe is Some ==> res is Some,                                                     //@C03,C06:expr-translated
     // ... as the graph construct of the same meaning
     expr_maybe is Some ==> expr_kind_ok(expr_maybe->Some_0, res->Some_0),                   //@C06:expression-class
+    // ... typed as its construct says, an identifier with the id and the type of its symbol
+    expr_maybe is Some ==> typed_ok(res->Some_0),                                           //@C08:expression-typed-as-its-construct
+    (expr_maybe is Some && expr_maybe->Some_0 is Identifier) ==> res->Some_0.ty == lookup_type(*old(context), expr_maybe->Some_0->Identifier_0.sp_string())
+        && res->Some_0.expression == asg::Expr::Identifier(lookup_id(*old(context), expr_maybe->Some_0->Identifier_0.sp_string())),     //@C07,C08:identifier-expression-has-its-symbol-and-type
     grows(*old(context), *final(context)),
     // a cast expression becomes a Cast node whose type is its target type: the (const) type written in the cast
     (expr_maybe is Some && expr_maybe->Some_0 is CastExpression) ==> res->Some_0.expression is Cast
